@@ -149,4 +149,8 @@ func parseMouseEvent(seq ansi.CSI) (Mouse, bool)
                           (seq.Parameters[0][0] & 4  != 0 ? ModShift : 0)
                         + (seq.Parameters[0][0] & 8  != 0 ? ModAlt   : 0)
                         + (seq.Parameters[0][0] & 16 != 0 ? ModCtrl  : 0)
+
+-- Every sequence the parser can deliver (C02's csiDispatch postcondition): inner parameter lists are non-empty.
+func (vx *Vaxis) handleSequence(seq ansi.Sequence)
+  requires wf: typeis(seq, "ansi.CSI") ==> CSIWF(unbox(seq, "ansi.CSI"))
 @*/
